@@ -595,6 +595,24 @@ pub fn tid() -> u64 {
     })
 }
 
+pub fn is_data_file(name: &str) -> bool {
+    name.starts_with("table_") || name.starts_with("index_") || name.starts_with("refcount_")
+}
+
+/// write `bytes` as the whole content of `path`, leaving all-zero 4 KiB blocks as holes
+pub fn write_sparse(path: &Path, bytes: &[u8]) -> std::io::Result<()> {
+    use std::io::{Seek, SeekFrom, Write};
+    let mut f = std::fs::OpenOptions::new().write(true).create(true).truncate(true).open(path)?;
+    f.set_len(bytes.len() as u64)?;
+    for (i, chunk) in bytes.chunks(4096).enumerate() {
+        if chunk.iter().any(|b| *b != 0) {
+            f.seek(SeekFrom::Start((i * 4096) as u64))?;
+            f.write_all(chunk)?;
+        }
+    }
+    Ok(())
+}
+
 pub type Callback = Arc<dyn Fn(&str, &[u64], usize) + Send + Sync>;
 
 /// Records hook events (emitted by parity-db inside its critical sections) and client
@@ -616,6 +634,10 @@ impl DurableState {
                 let name = e.file_name().to_string_lossy().to_string();
                 if name.starts_with("log") {
                     log_synced.insert(name, e.metadata().map(|m| m.len()).unwrap_or(0));
+                } else if is_data_file(&name) {
+                    // baseline: what the file holds now is durable.  Without it a file that is stored to but not
+                    // msynced since tracking began would always be taken "as it is now"
+                    let _ = crate::sys::quiet(|| copy_sparse(&e.path(), &shadow.join(&name)));
                 }
             }
         }
@@ -645,19 +667,44 @@ impl DurableState {
                 if std::env::var("PDBH_DEBUG").is_ok() {
                     eprintln!("powerloss: {name} cur={cur} synced={synced} keep={keep}");
                 }
-            } else if name.starts_with("table_") || name.starts_with("index_") || name.starts_with("refcount_") {
+            } else if is_data_file(&name) {
+                // the durable version of the file: as at its last msync (or when tracking began); a file that
+                // appeared later and was never msynced has no durable content at all (its length is assumed
+                // durable, like every directory operation: all zero)
                 let sh = self.shadow.join(&name);
-                if sh.exists() && pick(2) == 0 {
-                    let differs = std::fs::read(&sh).ok() != std::fs::read(e.path()).ok();
-                    copy_sparse(&sh, &e.path())?;
-                    if differs {
-                        changed += 1;
+                let cur = std::fs::read(e.path())?;
+                let mut old = if sh.exists() { std::fs::read(&sh)? } else { Vec::new() };
+                old.resize(cur.len(), 0);
+                if old == cur {
+                    continue
+                }
+                // whole file synced / whole file current / any mix of 4 KiB pages
+                let mode = pick(4);
+                let mut img_bytes = cur.clone();
+                let mut dropped = 0u64;
+                const PAGE: usize = 4096;
+                let npages = (cur.len() + PAGE - 1) / PAGE;
+                for pg in 0..npages {
+                    let (a, b) = (pg * PAGE, ((pg + 1) * PAGE).min(cur.len()));
+                    if old[a..b] == cur[a..b] {
+                        continue
                     }
-                    if std::env::var("PDBH_DEBUG").is_ok() {
-                        eprintln!("powerloss: {name} <- last msynced version (differs: {differs})");
+                    let take_old = match mode {
+                        0 => true,
+                        1 => false,
+                        _ => pick(2) == 0,
+                    };
+                    if take_old {
+                        img_bytes[a..b].copy_from_slice(&old[a..b]);
+                        dropped += 1;
                     }
-                } else if std::env::var("PDBH_DEBUG").is_ok() {
-                    eprintln!("powerloss: {name} kept (shadow exists: {})", sh.exists());
+                }
+                if dropped > 0 {
+                    write_sparse(&e.path(), &img_bytes)?;
+                    changed += 1;
+                }
+                if std::env::var("PDBH_DEBUG").is_ok() {
+                    eprintln!("powerloss: {name} mode={mode} pages reverted to the last msynced version: {dropped} (shadow exists: {})", sh.exists());
                 }
             }
         }
